@@ -577,6 +577,9 @@ func (m *Machine) Draw(t *rapid.T, g *GenOpts) Action {
 		if hostile || pct(t, 35, "interval?") {
 			a.Ident = 1 + uniform(t, 4, "interval") // explicit feeder interval in the oracle info, incl. "0"
 		}
+		if hostile || pct(t, 20, "decimals?") {
+			a.Dec = []int32{18, 19, 77, 255}[uniform(t, 4, "decimals")] // at and above the maximum the assets module accepts
+		}
 	case "updToken":
 		lst := m.lstAssets()
 		a.Asset = lst[uniform(t, len(lst), "lst")]
